@@ -692,7 +692,35 @@ pub fn lit_hays() -> Vec<Hay> {
     v
 }
 
+/// Haystacks for P-longlook: every sequence of at most two pieces out of the long literal, the literal
+/// with its 16-byte chunks swapped, and 'x', plus the three-piece sequences of two long literals and one 'x'.
+pub fn longlook_hays() -> Vec<Hay> {
+    let pieces: [Vec<u32>; 3] = [enumerate::chars("abcdefghijklmnopq"), enumerate::chars("qabcdefghijklmnop"), enumerate::chars("x")];
+    let mut out = vec![Hay::new(vec![])];
+    let mut prev: Vec<Vec<usize>> = vec![vec![]];
+    for round in 0..3 {
+        let mut next = Vec::new();
+        for p in &prev {
+            for q in 0..pieces.len() {
+                let mut v = p.clone();
+                v.push(q);
+                // of the three-piece sequences keep those with one 'x' and no repeated long piece
+                if round == 2 && (v.iter().filter(|&&i| i == 2).count() != 1 || v.contains(&1)) {
+                    continue;
+                }
+                next.push(v);
+            }
+        }
+        out.extend(next.iter().map(|v| Hay::new(v.iter().flat_map(|&i| pieces[i].iter().copied()).collect())));
+        prev = next;
+    }
+    out
+}
+
 pub fn hays_for(sp: &SweepProfile, thorough: bool, prop: Prop) -> Vec<Hay> {
+    if sp.profile.name == "P-longlook" {
+        return longlook_hays();
+    }
     if sp.profile.name == "P-lit" {
         let v = lit_hays();
         if prop == Prop::C13 {
@@ -822,6 +850,9 @@ pub fn quick_size_adjust(pid: &str, profile: &str) -> usize {
         ("C05", "P-1char") => 1,
         ("C02", "P-anchor") | ("C03", "P-anchor") | ("C02", "P-dupref") | ("C03", "P-dupref") | ("C02", "P-named") | ("C03", "P-named") => 1,
         ("C09", "P-1char") => 1,
+        ("C09", "P-anchor") => 1,
+        ("C02", "P-icaseback") | ("C03", "P-icaseback") => 1,
+        ("C16", "P-fail") => 0,
         _ => 0,
     }
 }
